@@ -156,6 +156,21 @@ def drive_and_validate(ctx, tag, profile, n, ops, seed, ids=6, backends="memory,
     ctx.cov["schedules_executed"] += info["traces"]
     if profile == "aux":
         aux_coverage(ctx, files)
+    # restart and two-handle steps that were actually executed (SQLite)
+    for f in files:
+        backend = "?"
+        for line in open(f):
+            if '"ev":"Reset"' in line:
+                backend = json.loads(line)["cfg"]["backend"]
+            elif '"ev":"Reopen"' in line:
+                ctx.count("restart_steps_sqlite", 1)
+            elif '"ev":"HandleRace"' in line:
+                e = json.loads(line)
+                if backend != "sqlite":
+                    continue
+                ctx.count("two_handle_races", 1)
+                if (e["r"]["second"]["nf"] or e["r"]["second"]["ex"]) and e["r"]["first"]["n"] > 0:
+                    ctx.count("two_handle_races_lease_voided_by_the_other_handle", 1)
     return res, info, sched
 
 
@@ -272,14 +287,19 @@ def triage(ctx, results, sched_file, reference=False, max_report=12):
         args = ["l0-run", "-sched", one, "-out", out, "-backends", backend, "-scratch", ctx.shm]
         if reference:
             args.append("-reference")
-        vf.hkv(args)
-        rr = vf.tv_run(ctx, [out], name="tv-repro", **tv_module_for(sched["ops"]))[0]
-        if rr["error"]:
-            raise vf.Infra("reproduction run errored: %s" % rr["error"])
-        revents = vf.load_trace(out)
-        rfails = [(c, ev, revents[line - 1], line) for (line, ev, c) in rr["fails"]]
-        if rr["matched"] < rr["total"]:
-            rfails.append(("rejected", revents[rr["matched"]].get("ev", "?"), revents[rr["matched"]], rr["matched"] + 1))
+        # a schedule with a two-handle race depends on the order in which SQLite grants its write lock: several attempts
+        attempts = 12 if any(o.get("op") == "HandleRace" for o in sched["ops"]) else 1
+        for _ in range(attempts):
+            vf.hkv(args)
+            rr = vf.tv_run(ctx, [out], name="tv-repro", **tv_module_for(sched["ops"]))[0]
+            if rr["error"]:
+                raise vf.Infra("reproduction run errored: %s" % rr["error"])
+            revents = vf.load_trace(out)
+            rfails = [(c, ev, revents[line - 1], line) for (line, ev, c) in rr["fails"]]
+            if rr["matched"] < rr["total"]:
+                rfails.append(("rejected", revents[rr["matched"]].get("ev", "?"), revents[rr["matched"]], rr["matched"] + 1))
+            if rfails:
+                break
         if not rfails:
             raise vf.Infra("divergence in %s did not reproduce (%s)" % (name, items[0][:2]))
         seen = set()
@@ -309,8 +329,11 @@ def replay(ctx, path):
     args = ["l0-run", "-sched", one, "-out", out, "-backends", obj["backend"], "-scratch", ctx.shm]
     if obj.get("reference"):
         args.append("-reference")
-    vf.hkv(args)
-    rr = vf.tv_run(ctx, [out], name="tv-replay", **tv_module_for(obj["schedule"]["ops"]))[0]
+    for _ in range(12 if any(o.get("op") == "HandleRace" for o in obj["schedule"]["ops"]) else 1):
+        vf.hkv(args)
+        rr = vf.tv_run(ctx, [out], name="tv-replay", **tv_module_for(obj["schedule"]["ops"]))[0]
+        if rr["fails"] or rr["matched"] < rr["total"]:
+            break
     events = vf.load_trace(out)
     if rr["fails"] or rr["matched"] < rr["total"]:
         for (line, ev, c) in rr["fails"]:
